@@ -837,6 +837,7 @@ func run(c *core.Ctx) {
 		b = bounds{main: 5, prec: 5, tags: 6, pull: 4, resolve: 4, urls: 4}
 	}
 	c.Bound("urls alphabet (3 versions x {url, key absent, urls: null, urls: []}), load+get / pull / resolve, YAML and JSON: max entries per chart", fmt.Sprint(b.urls))
+	c.Bound("urls alphabet through pull / resolve in the JSON spelling: max entries per chart", "3")
 	c.Bound("urls alphabet size; queries get+pull / resolve", fmt.Sprintf("%d; %d/%d", len(alphabets["urls"]), len(queries["urls"]), len(queries["resolve-urls"])))
 	c.Bound("load+get main alphabet: max entries per chart", fmt.Sprint(b.main))
 	c.Bound("load+get precedence alphabet: max entries per chart", fmt.Sprint(b.prec))
@@ -944,13 +945,17 @@ func run(c *core.Ctx) {
 		maxLen    int
 		spellings []string
 		queries   []string
+		jsonMax   int // the JSON spelling is run up to this length (same decoder behind both spellings)
 	}
-	for _, v := range []via{{"main", b.pull, []string{"yaml"}, queries["main"]}, {"urls", b.urls, []string{"yaml", "json"}, queries["urls"]}} {
+	for _, v := range []via{{"main", b.pull, []string{"yaml"}, queries["main"], 0}, {"urls", b.urls, []string{"yaml", "json"}, queries["urls"], 3}} {
 		if !only("pull") {
 			break
 		}
 		enumLists(alphabets[v.alpha], v.maxLen, func(list []string) {
 			for _, sp := range v.spellings {
+				if sp == "json" && len(list) > v.jsonMax {
+					continue
+				}
 				if !c.NextMine() {
 					continue
 				}
@@ -981,12 +986,15 @@ func run(c *core.Ctx) {
 	}
 
 	// Phase 3: Manager.Update -> resolver.Resolve -> Chart.lock
-	for _, v := range []via{{"main", b.resolve, []string{"yaml"}, queries["resolve"]}, {"urls", b.urls, []string{"yaml", "json"}, queries["resolve-urls"]}} {
+	for _, v := range []via{{"main", b.resolve, []string{"yaml"}, queries["resolve"], 0}, {"urls", b.urls, []string{"yaml", "json"}, queries["resolve-urls"], 3}} {
 		if !only("resolve") {
 			break
 		}
 		enumLists(alphabets[v.alpha], v.maxLen, func(list []string) {
 			for _, sp := range v.spellings {
+				if sp == "json" && len(list) > v.jsonMax {
+					continue
+				}
 				if !c.NextMine() {
 					continue
 				}
